@@ -423,6 +423,12 @@ func TestC18_ConfigHistory(t *testing.T) {
 						nonPow2 = true
 					}
 				}
+				if refused[nc.Name] != "" && len(rs) == 0 {
+					// the creation of the namespace was refused as a whole: nothing is published for it, which
+					// the statement admits ("covered exactly once" speaks about published assignments)
+					sawRefusal = true
+					continue
+				}
 				if p := partitionProblem(rs); p != "" {
 					why := ""
 					switch {
